@@ -41,7 +41,8 @@ pub fn profile() -> Profile {
         mut_classes: vec![BitFlip, ByteSet, Truncate, FieldExtreme, Garbage, BitFlip],
         fix_checksum_permille: 400,
         wire: vec![WireEnc::Raw, WireEnc::Compressed, WireEnc::FullSave, WireEnc::Bundle],
-        long_chain_permille: 0,
+        // some runs long enough for the change graph's cached clocks (every 16th change) to exist
+        long_chain_permille: 150,
         ..Profile::default()
     }
 }
@@ -112,6 +113,20 @@ impl C06 {
             let h2 = heads_sorted(from_hashes(&w.reps[r].doc.document().get_heads()));
             if h1 != h2 {
                 return Err(fail("heads_unchanged", &format!("{kind}:heads-changed"), "the heads changed".to_string()));
+            }
+            // "observably unchanged" includes what the document says about its past: reads at two earlier head sets
+            for k in 0..2u32 {
+                if let Some(hs) = w.pick_heads(r, w.cfg.p2.wrapping_add(step as u32).wrapping_mul(2654435761).wrapping_add(k)) {
+                    if hs.is_empty() {
+                        continue;
+                    }
+                    w.stats.bump("probe.failed_call_historical_read");
+                    let a = observe(&pre, Some(&hs)).map_err(|e| fail("history_unchanged", "read-inconsistency", e.0.clone()))?;
+                    let b = observe(&w.reps[r].doc, Some(&hs)).map_err(|e| fail("history_unchanged", "read-inconsistency", e.0.clone()))?;
+                    if let Some(d) = tree_diff(&a, &b) {
+                        return Err(fail("history_unchanged", &format!("{kind}:historical-state-changed"), format!("the state at earlier heads ({} head(s)) changed: {d}", hs.len())));
+                    }
+                }
             }
             let m1 = pre.document().get_missing_deps(&[]);
             let m2 = w.reps[r].doc.document().get_missing_deps(&[]);
